@@ -106,7 +106,7 @@ class Gen:
         if r < 0.80:
             return '(%s < %s)' % (self.expr(d - 1), self.expr(d - 1))
         if r < 0.85:
-            return '(%s < %s <= %s)' % (self.atom(), self.expr(d - 1), self.atom())
+            return '(%s < %s <= %s)' % (self.atom(), self.expr(d - 1), self.expr(d - 1) if self.rng.random() < 0.5 else self.atom())
         if r < 0.92:
             return '(%s + %s)' % (self.expr(d - 1), self.expr(d - 1))
         if r < 0.97:
@@ -282,6 +282,10 @@ SYSTEMATIC = [
     "def f(o):\n    x = 0\n    for j in o.it(1):\n        while o(2):\n            x += 1\n        else:\n            if o(3):\n                break\n            x += 10\n        x += 100\n    return x\n",
     "def f(o):\n    x = 0\n    for j in o.it(1):\n        while o(2):\n            x += 1\n        else:\n            if o(3):\n                x += 5\n            else:\n                continue\n            x += 10\n        x += 100\n    return x\n",
     "def f(o):\n    x = 0\n    for j in o.it(1):\n        for k in o.it(2):\n            x += 1\n            if o(3):\n                break\n        else:\n            if o(4):\n                break\n        x += 100\n    else:\n        x += 1000\n    return x\n",
+    # chained comparisons with an and/or operand (inside the region of finding R8: compared under the tag-constant oracle)
+    "def f(o):\n    x = 0\n    if o(1) < o(2) < (o(3) or o(4)):\n        x = 1\n    return x\n",
+    "def f(o):\n    x = o(1) <= o(2) <= (o(3) and o(4))\n    return x\n",
+    "def f(o):\n    x = 0\n    while o(1) < o(2) < (o(3) or 2):\n        x += 1\n        if o(4):\n            break\n    return x\n",
     # several exits of one loop to different places (value tables with several entries per target)
     "def f(o):\n    x = 0\n    for j in o.it(1):\n        if o(2):\n            return x + 1\n        if o(3):\n            x += 5\n            break\n        x += 2\n    else:\n        x += 3\n    x += 4\n    return x\n",
 ]
